@@ -222,10 +222,102 @@ func lifeNested(e *Env, g G) {
 	}
 }
 
+// lifeRace: two tasks call Connect on a disconnected client at the same time
+// (a DISCONNECTED handler and a watchdog both reconnecting) and the dial takes
+// a while.  Exactly one of them establishes a connection, the other is
+// refused; REGISTER fires once; the connection then ends with one DISCONNECTED.
+func lifeRace(e *Env, g G) {
+	direct := g.Bool()
+	track := g.Bool()
+	e.S.Count("fault.two-connects-overlap-during-a-slow-dial")
+	e.Notef("overlapping Connects: direct-dial=%v track=%v", direct, track)
+	var links []*simnet.Link
+	e.LinkPlan = func(l *simnet.Link) { l.ChunkMode = g.Intn(4) }
+	dialDelay := time.Duration(g.Range(0, 50)) * 10 * time.Millisecond
+	e.DialWait = func(ctx context.Context, n int) error {
+		for i := e.S.Choose(30); i > 0; i-- {
+			simrt.Sleep(0)
+		}
+		simrt.Sleep(dialDelay)
+		return nil
+	}
+	e.OnDial = func(l *simnet.Link) {
+		links = append(links, l)
+		no := len(links)
+		e.S.Spawn(fmt.Sprintf("server%d", no), func() {
+			if _, ok := Registration(l, time.Hour); !ok {
+				return
+			}
+			Welcome(l, "race")
+			for {
+				if _, ok := l.RecvLine(); !ok {
+					return
+				}
+			}
+		})
+	}
+	c := NewClient(ClientOpts{Nick: "race", Ident: "sim", Name: "Sim User", Flood: true, Track: track, Direct: direct, CtxDialer: !direct && g.Bool()})
+	regN, discN := 0, 0
+	c.HandleFunc(client.REGISTER, func(*client.Conn, *client.Line) { regN++ })
+	c.HandleFunc(client.DISCONNECTED, func(*client.Conn, *client.Line) { discN++ })
+	n := g.Range(2, 3)
+	errs := make([]error, n)
+	done := 0
+	for i := 0; i < n; i++ {
+		i := i
+		e.S.Spawn(fmt.Sprintf("connector%d", i), func() {
+			for k := e.S.Choose(20); k > 0; k-- {
+				simrt.Sleep(0)
+			}
+			errs[i] = c.Connect()
+			done++
+		})
+	}
+	if !simrt.BlockFor("life.race", "every Connect call to return", time.Hour, func() bool { return done == n }) {
+		e.Violation("overlapping-connects", "%d Connect calls were issued at once on a disconnected client; %d returned\n%s", n, done, e.S.TaskDump())
+		return
+	}
+	simrt.Settle(10 * time.Second)
+	ok := 0
+	for _, err := range errs {
+		if err == nil {
+			ok++
+		}
+	}
+	e.Check()
+	if ok != 1 || regN != 1 || len(links) != 1 {
+		e.Violation("overlapping-connects", "%d Connect calls were issued at once on a disconnected client: %d returned nil (want exactly one, the others are refused as already connected), REGISTER fired %d times, %d connections were dialled through: errors %v", n, ok, regN, len(links), errs)
+		return
+	}
+	if !c.Connected() {
+		e.Violation("overlapping-connects", "Connected() is false although one Connect succeeded and nothing ended the connection")
+		return
+	}
+	links[0].CloseByServer()
+	if !simrt.BlockFor("life.race", "DISCONNECTED after the server hung up", 10*time.Minute, func() bool { return discN >= 1 }) {
+		e.Violation("disconnect-not-completed", "after overlapping Connects (one succeeded) the server hung up: no DISCONNECTED within 10 simulated minutes\n%s", e.S.TaskDump())
+		return
+	}
+	closed := false
+	e.S.Spawn("final-closer", func() { c.Close(); closed = true })
+	if !simrt.BlockFor("life.race", "Close to return", 10*time.Minute, func() bool { return closed }) {
+		e.Violation("close-did-not-return", "Close after the connection had ended did not return\n%s", e.S.TaskDump())
+		return
+	}
+	simrt.Settle(5 * time.Second)
+	if discN != 1 {
+		e.Violation("disconnected-once", "one connection was established and ended: DISCONNECTED fired %d times", discN)
+	}
+}
+
 func lifeRun(e *Env) {
 	g := G{e.S}
 	if g.Pct(6) {
 		lifeNested(e, g)
+		return
+	}
+	if g.Pct(6) {
+		lifeRace(e, g)
 		return
 	}
 	w := &lifeW{e: e, g: g, discOther: map[string]int{}}
